@@ -23,23 +23,27 @@ import (
 )
 
 var sdkEnvNames = map[string][]string{
-	"bsp.queue":            {"OTEL_BSP_MAX_QUEUE_SIZE"},
-	"bsp.batch":            {"OTEL_BSP_MAX_EXPORT_BATCH_SIZE"},
-	"bsp.timeout":          {"OTEL_BSP_EXPORT_TIMEOUT"},
-	"bsp.delay":            {"OTEL_BSP_SCHEDULE_DELAY"},
-	"blrp.queue":           {"OTEL_BLRP_MAX_QUEUE_SIZE"},
-	"blrp.batch":           {"OTEL_BLRP_MAX_EXPORT_BATCH_SIZE"},
-	"blrp.timeout":         {"OTEL_BLRP_EXPORT_TIMEOUT"},
-	"blrp.delay":           {"OTEL_BLRP_SCHEDULE_DELAY"},
-	"span.attr_count":      {"OTEL_SPAN_ATTRIBUTE_COUNT_LIMIT", "OTEL_ATTRIBUTE_COUNT_LIMIT"},
-	"span.attr_len":        {"OTEL_SPAN_ATTRIBUTE_VALUE_LENGTH_LIMIT", "OTEL_ATTRIBUTE_VALUE_LENGTH_LIMIT"},
-	"span.event_count":     {"OTEL_SPAN_EVENT_COUNT_LIMIT"},
-	"span.link_count":      {"OTEL_SPAN_LINK_COUNT_LIMIT"},
+	"bsp.queue":             {"OTEL_BSP_MAX_QUEUE_SIZE"},
+	"bsp.batch":             {"OTEL_BSP_MAX_EXPORT_BATCH_SIZE"},
+	"bsp.timeout":           {"OTEL_BSP_EXPORT_TIMEOUT"},
+	"bsp.delay":             {"OTEL_BSP_SCHEDULE_DELAY"},
+	"blrp.queue":            {"OTEL_BLRP_MAX_QUEUE_SIZE"},
+	"blrp.batch":            {"OTEL_BLRP_MAX_EXPORT_BATCH_SIZE"},
+	"blrp.timeout":          {"OTEL_BLRP_EXPORT_TIMEOUT"},
+	"blrp.delay":            {"OTEL_BLRP_SCHEDULE_DELAY"},
+	"span.attr_count":       {"OTEL_SPAN_ATTRIBUTE_COUNT_LIMIT", "OTEL_ATTRIBUTE_COUNT_LIMIT"},
+	"span.attr_len":         {"OTEL_SPAN_ATTRIBUTE_VALUE_LENGTH_LIMIT", "OTEL_ATTRIBUTE_VALUE_LENGTH_LIMIT"},
+	"span.event_count":      {"OTEL_SPAN_EVENT_COUNT_LIMIT"},
+	"span.link_count":       {"OTEL_SPAN_LINK_COUNT_LIMIT"},
 	"span.event_attr_count": {"OTEL_EVENT_ATTRIBUTE_COUNT_LIMIT"},
-	"span.link_attr_count": {"OTEL_LINK_ATTRIBUTE_COUNT_LIMIT"},
-	"logrecord.attr_count": {"OTEL_LOGRECORD_ATTRIBUTE_COUNT_LIMIT", "OTEL_ATTRIBUTE_COUNT_LIMIT"},
-	"logrecord.attr_len":   {"OTEL_LOGRECORD_ATTRIBUTE_VALUE_LENGTH_LIMIT", "OTEL_ATTRIBUTE_VALUE_LENGTH_LIMIT"},
+	"span.link_attr_count":  {"OTEL_LINK_ATTRIBUTE_COUNT_LIMIT"},
+	"logrecord.attr_count":  {"OTEL_LOGRECORD_ATTRIBUTE_COUNT_LIMIT", "OTEL_ATTRIBUTE_COUNT_LIMIT"},
+	"logrecord.attr_len":    {"OTEL_LOGRECORD_ATTRIBUTE_VALUE_LENGTH_LIMIT", "OTEL_ATTRIBUTE_VALUE_LENGTH_LIMIT"},
 }
+
+// inconclusive observations start with this prefix: the experiment itself did not work
+// (a bound expired); they are reported to the driver as inconclusive, never as a mismatch.
+const inconcl = "INCONCLUSIVE:"
 
 func runSDKCase(c Case, conc *Conc) Outcome {
 	var out Outcome
@@ -54,28 +58,31 @@ func runSDKCase(c Case, conc *Conc) Outcome {
 	if hasOpt {
 		out.Opt = fmt.Sprintf("option(%d)", optV)
 	}
-	var obs []string
-	var detail string
-	err, special := guarded(20*time.Second, func() error {
+	out.Obs, out.Detail = observeSDK(c.Setting, optV, hasOpt, conc, false)
+	return out
+}
+
+// observeSDK runs the experiment that makes one SDK setting observable, under a watchdog.
+// pin: give every OTHER setting of the same component an explicit, valid option so that only
+// the setting under observation depends on the environment (used by multi-setting scenarios).
+func observeSDK(setting string, optV int, hasOpt bool, conc *Conc, pin bool) (obs []string, detail string) {
+	err, special := guarded(2*watchdog, func() error {
 		switch {
-		case strings.HasPrefix(c.Setting, "bsp."):
-			obs, detail = observeBSP(c.Setting, optV, hasOpt, conc)
-		case strings.HasPrefix(c.Setting, "blrp."):
-			obs, detail = observeBLRP(c.Setting, optV, hasOpt, conc)
-		case strings.HasPrefix(c.Setting, "span."):
-			obs, detail = observeSpanLimit(c.Setting, optV, hasOpt, conc)
-		case strings.HasPrefix(c.Setting, "logrecord."):
-			obs, detail = observeLogLimit(c.Setting, optV, hasOpt, conc)
+		case strings.HasPrefix(setting, "bsp."):
+			obs, detail = observeBSP(setting, optV, hasOpt, conc, pin)
+		case strings.HasPrefix(setting, "blrp."):
+			obs, detail = observeBLRP(setting, optV, hasOpt, conc, pin)
+		case strings.HasPrefix(setting, "span."):
+			obs, detail = observeSpanLimit(setting, optV, hasOpt, conc)
+		case strings.HasPrefix(setting, "logrecord."):
+			obs, detail = observeLogLimit(setting, optV, hasOpt, conc)
 		}
 		return nil
 	})
 	if special != "" {
-		out.Obs = []string{special}
-		out.Detail = errText(err)
-		return out
+		return []string{special}, errText(err)
 	}
-	out.Obs, out.Detail = obs, detail
-	return out
+	return obs, detail
 }
 
 // ---------------------------------------------------------------- span / record factories
@@ -133,11 +140,23 @@ func maxInt(xs []int) int {
 	return m
 }
 
-func observeBSP(setting string, optV int, hasOpt bool, conc *Conc) ([]string, string) {
+func observeBSP(setting string, optV int, hasOpt bool, conc *Conc, pin bool) ([]string, string) {
 	rec := &spanRec{entered: make(chan struct{})}
 	var opts []sdktrace.BatchSpanProcessorOption
 	hour := sdktrace.WithBatchTimeout(time.Hour)
 	ctx := context.Background()
+	if pin {
+		// explicit valid values for the settings that are not under observation
+		if setting != "bsp.queue" {
+			opts = append(opts, sdktrace.WithMaxQueueSize(4096))
+		}
+		if setting != "bsp.batch" {
+			opts = append(opts, sdktrace.WithMaxExportBatchSize(256))
+		}
+		if setting != "bsp.timeout" {
+			opts = append(opts, sdktrace.WithExportTimeout(time.Minute))
+		}
+	}
 	switch setting {
 	case "bsp.queue":
 		rec.release = make(chan struct{})
@@ -146,15 +165,16 @@ func observeBSP(setting string, optV int, hasOpt bool, conc *Conc) ([]string, st
 			opts = append(opts, sdktrace.WithMaxQueueSize(optV))
 		}
 		p := sdktrace.NewBatchSpanProcessor(rec, opts...)
-		// phase 1: get the worker blocked inside the exporter holding exactly one span
+		// phase 1: get the worker blocked inside the exporter holding exactly one span (batch
+		// size 1).  With a queue of capacity 0 a span is only accepted while the worker waits.
 		n := 0
 		entered := false
-		for try := 0; try < 400 && !entered; try++ {
+		for try := 0; try < 3000 && !entered; try++ {
 			p.OnEnd(sampledSpan(n))
 			n++
-			wait := 5 * time.Millisecond
+			wait := 10 * time.Millisecond
 			if try == 0 {
-				wait = 200 * time.Millisecond
+				wait = 500 * time.Millisecond
 			}
 			select {
 			case <-rec.entered:
@@ -165,7 +185,7 @@ func observeBSP(setting string, optV int, hasOpt bool, conc *Conc) ([]string, st
 		if !entered {
 			close(rec.release)
 			p.Shutdown(ctx)
-			return []string{"?never-exported"}, "worker never reached the exporter"
+			return []string{inconcl + "never-exported"}, "worker never reached the exporter"
 		}
 		// phase 2: overflow the queue while the worker is blocked
 		for i := 0; i < 2300; i++ {
@@ -175,7 +195,7 @@ func observeBSP(setting string, optV int, hasOpt bool, conc *Conc) ([]string, st
 		close(rec.release)
 		p.Shutdown(ctx)
 		capn := rec.total - 1
-		return conc.absCount("sdk", setting, capn, 0), fmt.Sprintf("ended=%d delivered=%d capacity=%d", n, rec.total, capn)
+		return conc.absCount(setting, capn, 0), fmt.Sprintf("ended=%d delivered=%d capacity=%d", n, rec.total, capn)
 	case "bsp.batch":
 		opts = append(opts, hour)
 		if hasOpt {
@@ -187,7 +207,7 @@ func observeBSP(setting string, optV int, hasOpt bool, conc *Conc) ([]string, st
 		}
 		p.Shutdown(ctx)
 		m := maxInt(rec.batches)
-		return conc.absCount("sdk", setting, m, 0), fmt.Sprintf("batches=%d max=%d total=%d", len(rec.batches), m, rec.total)
+		return conc.absCount(setting, m, 0), fmt.Sprintf("batches=%d max=%d total=%d", len(rec.batches), m, rec.total)
 	case "bsp.timeout":
 		opts = append(opts, hour)
 		if hasOpt {
@@ -198,9 +218,9 @@ func observeBSP(setting string, optV int, hasOpt bool, conc *Conc) ([]string, st
 		p.ForceFlush(ctx)
 		p.Shutdown(ctx)
 		if rec.total == 0 {
-			return []string{"?never-exported"}, ""
+			return []string{inconcl + "never-exported"}, ""
 		}
-		return conc.absDeadline("sdk", setting, rec.hasDL, rec.remMs), fmt.Sprintf("deadline=%v rem=%dms", rec.hasDL, rec.remMs)
+		return conc.absDeadline(setting, rec.hasDL, rec.remMs), fmt.Sprintf("deadline=%v rem=%dms", rec.hasDL, rec.remMs)
 	case "bsp.delay":
 		if hasOpt {
 			opts = append(opts, sdktrace.WithBatchTimeout(time.Duration(optV)*time.Millisecond))
@@ -208,7 +228,7 @@ func observeBSP(setting string, optV int, hasOpt bool, conc *Conc) ([]string, st
 		t0 := time.Now()
 		p := sdktrace.NewBatchSpanProcessor(rec, opts...)
 		p.OnEnd(sampledSpan(0))
-		obs, detail := classifyDelay(setting, t0, rec.entered, func() time.Time { rec.mu.Lock(); defer rec.mu.Unlock(); return rec.first }, conc)
+		obs, detail := classifyDelay(setting, t0, rec.entered, func() time.Time { rec.mu.Lock(); defer rec.mu.Unlock(); return rec.first }, conc, pin)
 		p.Shutdown(ctx)
 		return obs, detail
 	}
@@ -216,26 +236,75 @@ func observeBSP(setting string, optV int, hasOpt bool, conc *Conc) ([]string, st
 }
 
 // classifyDelay waits for the first timer-driven export and classifies the elapsed time since
-// construction.  A timer of d cannot fire before d (exact lower bounds); upper bounds are the
-// next larger configured value, and a mismatch is re-run by the caller before it counts.
-func classifyDelay(setting string, t0 time.Time, entered <-chan struct{}, first func() time.Time, conc *Conc) ([]string, string) {
+// construction.  A timer of d cannot fire before d, so "the delay is at most the elapsed time"
+// is always sound; "the delay is more than X" is only as good as the scheduler.
+//   - point mode (edge replay): the class whose interval contains the elapsed time; the caller
+//     re-runs a case whose class is not admissible (a genuine disagreement reproduces every
+//     time, a scheduling hiccup does not)
+//   - sound mode (random scenarios, no re-run): every class whose delay is at most the elapsed
+//     time (a slow machine can only widen the set, never produce a false mismatch)
+func classifyDelay(setting string, t0 time.Time, entered <-chan struct{}, first func() time.Time, conc *Conc, sound bool) ([]string, string) {
 	o := time.Duration(conc.numVal(setting, "O")) * time.Millisecond
 	s := time.Duration(conc.numVal(setting, "S")) * time.Millisecond
-	d := time.Duration(defaultNum("sdk", setting)) * time.Millisecond
+	d := time.Duration(defaultNum(setting)) * time.Millisecond
 	capT := 1500 * time.Millisecond
 	if d < capT {
 		capT = d + 600*time.Millisecond
 	}
+	// canary: a goroutine that sleeps 10 ms at a time measures how late this process is woken up
+	// while the experiment runs; the point classification is only trusted on a quiet scheduler
+	stop := make(chan struct{})
+	noise := make(chan time.Duration, 1)
+	go func() {
+		var worst time.Duration
+		for {
+			select {
+			case <-stop:
+				noise <- worst
+				return
+			default:
+			}
+			t := time.Now()
+			time.Sleep(10 * time.Millisecond)
+			if over := time.Since(t) - 10*time.Millisecond; over > worst {
+				worst = over
+			}
+		}
+	}()
+	wait := time.NewTimer(capT - time.Since(t0))
+	defer wait.Stop()
+	timedOut := false
 	select {
 	case <-entered:
-	case <-time.After(capT - time.Since(t0)):
-		if d >= capT {
+	case <-wait.C:
+		timedOut = true
+	}
+	close(stop)
+	worst := <-noise
+	if !sound && worst > 120*time.Millisecond {
+		return []string{inconcl + "noisy-scheduler"}, fmt.Sprintf("wake-ups up to %s late during the experiment", worst)
+	}
+	if timedOut {
+		if d >= capT || sound {
 			return []string{"D"}, fmt.Sprintf("no export within %s", capT)
 		}
 		return []string{"?late"}, fmt.Sprintf("no export within %s", capT)
 	}
 	el := first().Sub(t0)
-	detail := fmt.Sprintf("first export after %s", el)
+	detail := fmt.Sprintf("first export after %s (scheduler noise %s)", el, worst)
+	if sound {
+		out := []string{"fast"}
+		if el >= o {
+			out = append(out, "O")
+		}
+		if el >= s {
+			out = append(out, "S")
+		}
+		if el >= d {
+			out = append(out, "D")
+		}
+		return out, detail
+	}
 	switch {
 	case el < o:
 		return []string{"fast"}, detail
@@ -291,35 +360,45 @@ func logRecord(seq int64) *sdklog.Record {
 	return &r
 }
 
-func observeBLRP(setting string, optV int, hasOpt bool, conc *Conc) ([]string, string) {
+func observeBLRP(setting string, optV int, hasOpt bool, conc *Conc, pin bool) ([]string, string) {
 	rec := &logRec{entered: make(chan struct{})}
 	var opts []sdklog.BatchProcessorOption
 	hour := sdklog.WithExportInterval(time.Hour)
 	ctx := context.Background()
+	if pin {
+		if setting != "blrp.queue" {
+			opts = append(opts, sdklog.WithMaxQueueSize(4096))
+		}
+		if setting != "blrp.batch" {
+			opts = append(opts, sdklog.WithExportMaxBatchSize(256))
+		}
+		if setting != "blrp.timeout" {
+			opts = append(opts, sdklog.WithExportTimeout(time.Minute))
+		}
+	}
 	switch setting {
 	case "blrp.queue":
+		// Batch size 1: every record triggers an export.  The first export blocks inside the
+		// exporter; at most one more single-record batch waits in the export buffer; everything
+		// else stays in the ring, which keeps the newest `capacity` records.  After the release
+		// the length of the newest contiguous run of delivered records is the ring capacity.
 		rec.release = make(chan struct{})
-		opts = append(opts, hour)
+		opts = append(opts, hour, sdklog.WithExportMaxBatchSize(1))
 		if hasOpt {
 			opts = append(opts, sdklog.WithMaxQueueSize(optV))
 		}
 		p := sdklog.NewBatchProcessor(rec, opts...)
 		var seq int64
-		// phase 1: saturate exporter + export buffer
-		for i := 0; i < 3000; i++ {
-			p.OnEmit(ctx, logRecord(seq))
-			seq++
-		}
+		p.OnEmit(ctx, logRecord(seq))
+		seq++
 		select {
 		case <-rec.entered:
-		case <-time.After(3 * time.Second):
+		case <-time.After(20 * time.Second):
 			close(rec.release)
 			p.Shutdown(ctx)
-			return []string{"?never-exported"}, ""
+			return []string{inconcl + "never-exported"}, ""
 		}
-		time.Sleep(30 * time.Millisecond) // let the poll goroutine fill the export buffer
-		// phase 2: overflow the ring; it keeps the newest `capacity` records
-		for i := 0; i < 4200; i++ {
+		for i := 0; i < 4600; i++ {
 			p.OnEmit(ctx, logRecord(seq))
 			seq++
 		}
@@ -333,7 +412,7 @@ func observeBLRP(setting string, optV int, hasOpt bool, conc *Conc) ([]string, s
 		for s := seq - 1; s >= 0 && have[s]; s-- {
 			run++
 		}
-		return conc.absCount("sdk", setting, run, 0), fmt.Sprintf("emitted=%d delivered=%d newest-run=%d", seq, len(rec.seqs), run)
+		return conc.absCount(setting, run, 0), fmt.Sprintf("emitted=%d delivered=%d newest-run=%d", seq, len(rec.seqs), run)
 	case "blrp.batch":
 		opts = append(opts, hour)
 		if hasOpt {
@@ -345,7 +424,7 @@ func observeBLRP(setting string, optV int, hasOpt bool, conc *Conc) ([]string, s
 		}
 		p.Shutdown(ctx)
 		m := maxInt(rec.batches)
-		return conc.absCount("sdk", setting, m, 0), fmt.Sprintf("batches=%d max=%d total=%d", len(rec.batches), m, len(rec.seqs))
+		return conc.absCount(setting, m, 0), fmt.Sprintf("batches=%d max=%d total=%d", len(rec.batches), m, len(rec.seqs))
 	case "blrp.timeout":
 		opts = append(opts, hour)
 		if hasOpt {
@@ -356,9 +435,9 @@ func observeBLRP(setting string, optV int, hasOpt bool, conc *Conc) ([]string, s
 		p.ForceFlush(ctx)
 		p.Shutdown(ctx)
 		if len(rec.seqs) == 0 {
-			return []string{"?never-exported"}, ""
+			return []string{inconcl + "never-exported"}, ""
 		}
-		return conc.absDeadline("sdk", setting, rec.hasDL, rec.remMs), fmt.Sprintf("deadline=%v rem=%dms", rec.hasDL, rec.remMs)
+		return conc.absDeadline(setting, rec.hasDL, rec.remMs), fmt.Sprintf("deadline=%v rem=%dms", rec.hasDL, rec.remMs)
 	case "blrp.delay":
 		if hasOpt {
 			opts = append(opts, sdklog.WithExportInterval(time.Duration(optV)*time.Millisecond))
@@ -366,7 +445,7 @@ func observeBLRP(setting string, optV int, hasOpt bool, conc *Conc) ([]string, s
 		t0 := time.Now()
 		p := sdklog.NewBatchProcessor(rec, opts...)
 		p.OnEmit(ctx, logRecord(0))
-		obs, detail := classifyDelay(setting, t0, rec.entered, func() time.Time { rec.mu.Lock(); defer rec.mu.Unlock(); return rec.first }, conc)
+		obs, detail := classifyDelay(setting, t0, rec.entered, func() time.Time { rec.mu.Lock(); defer rec.mu.Unlock(); return rec.first }, conc, pin)
 		p.Shutdown(ctx)
 		return obs, detail
 	}
@@ -466,7 +545,7 @@ func observeSpanLimit(setting string, optV int, hasOpt bool, conc *Conc) ([]stri
 			n = len(ro.Links()[0].Attributes)
 		}
 	}
-	return conc.absCount("sdk", setting, n, offered), fmt.Sprintf("kept=%d of %d", n, offered)
+	return conc.absCount(setting, n, offered), fmt.Sprintf("kept=%d of %d", n, offered)
 }
 
 // ---------------------------------------------------------------- log record limits
@@ -525,7 +604,7 @@ func observeLogLimit(setting string, optV int, hasOpt bool, conc *Conc) ([]strin
 	if setting == "logrecord.attr_len" {
 		n = proc.vlen
 	}
-	return conc.absCount("sdk", setting, n, offered), fmt.Sprintf("kept=%d of %d", n, offered)
+	return conc.absCount(setting, n, offered), fmt.Sprintf("kept=%d of %d", n, offered)
 }
 
 // ---------------------------------------------------------------- sampler
@@ -601,12 +680,71 @@ var samplerIDs = func() []string {
 		ids = append(ids, n)
 	}
 	for _, n := range []string{"traceidratio", "parentbased_traceidratio"} {
-		for r := range ratioVal {
+		for _, r := range []string{"R0", "R25", "R50", "R100"} {
 			ids = append(ids, n+":"+r)
 		}
 	}
 	return ids
 }()
+
+func samplerNameEnv(name Src, conc *Conc) (string, bool) {
+	switch name.K {
+	case "valid":
+		return name.V, true
+	case "case":
+		return conc.pick([]string{strings.ToUpper(name.V), strings.Title(name.V), " " + name.V + " "}), true
+	case "unknown":
+		return conc.pick([]string{"foo", "always", "jaeger_remote", "0.5", "always_on,always_off", "parentbased"}), true
+	case "empty":
+		return "", true
+	}
+	return "", false
+}
+
+func samplerArgEnv(arg Src, conc *Conc) (string, bool) {
+	switch arg.K {
+	case "valid":
+		return fmt.Sprint(ratioVal[arg.V]), true
+	case "nonnum":
+		return conc.pick([]string{"abc", "0,5", "half", "NaN", "0.5.0", "1/2"}), true
+	case "neg":
+		return conc.pick([]string{"-0.5", "-1", "-1e-9"}), true
+	case "gt1":
+		return conc.pick([]string{"1.5", "2", "1e9", "+Inf"}), true
+	case "empty":
+		return "", true
+	}
+	return "", false
+}
+
+// probeSampler starts, for every probe trace id, a root span, a child of a sampled remote
+// parent and a child of an unsampled remote parent, and returns the decision vector.
+func probeSampler(tr trace.Tracer, gen *fixedIDs) string {
+	var b strings.Builder
+	for _, p := range probeIDs {
+		gen.mu.Lock()
+		gen.tid = p.id
+		gen.mu.Unlock()
+		parent := func(sampled bool) context.Context {
+			fl := trace.TraceFlags(0)
+			if sampled {
+				fl = trace.FlagsSampled
+			}
+			return trace.ContextWithRemoteSpanContext(context.Background(), trace.NewSpanContext(trace.SpanContextConfig{
+				TraceID: p.id, SpanID: trace.SpanID{5}, TraceFlags: fl, Remote: true}))
+		}
+		for _, ctx := range []context.Context{context.Background(), parent(true), parent(false)} {
+			_, sp := tr.Start(ctx, "probe")
+			if sp.SpanContext().IsSampled() {
+				b.WriteByte('1')
+			} else {
+				b.WriteByte('0')
+			}
+			sp.End()
+		}
+	}
+	return b.String()
+}
 
 func runSamplerCase(c Case, conc *Conc) Outcome {
 	var out Outcome
@@ -615,30 +753,14 @@ func runSamplerCase(c Case, conc *Conc) Outcome {
 		os.Setenv(k, v)
 		out.Env = append(out.Env, k+"="+v)
 	}
-	switch name.K {
-	case "valid":
-		setenv("OTEL_TRACES_SAMPLER", name.V)
-	case "case":
-		setenv("OTEL_TRACES_SAMPLER", conc.pick([]string{strings.ToUpper(name.V), strings.Title(name.V), " " + name.V + " "}))
-	case "unknown":
-		setenv("OTEL_TRACES_SAMPLER", conc.pick([]string{"foo", "always", "jaeger_remote", "0.5"}))
-	case "empty":
-		setenv("OTEL_TRACES_SAMPLER", "")
+	if v, ok := samplerNameEnv(name, conc); ok {
+		setenv("OTEL_TRACES_SAMPLER", v)
 	}
-	switch arg.K {
-	case "valid":
-		setenv("OTEL_TRACES_SAMPLER_ARG", fmt.Sprint(ratioVal[arg.V]))
-	case "nonnum":
-		setenv("OTEL_TRACES_SAMPLER_ARG", conc.pick([]string{"abc", "0,5", "half", "NaN"}))
-	case "neg":
-		setenv("OTEL_TRACES_SAMPLER_ARG", conc.pick([]string{"-0.5", "-1", "-1e-9"}))
-	case "gt1":
-		setenv("OTEL_TRACES_SAMPLER_ARG", conc.pick([]string{"1.5", "2", "1e9", "+Inf"}))
-	case "empty":
-		setenv("OTEL_TRACES_SAMPLER_ARG", "")
+	if v, ok := samplerArgEnv(arg, conc); ok {
+		setenv("OTEL_TRACES_SAMPLER_ARG", v)
 	}
 	var vec string
-	err, special := guarded(10*time.Second, func() error {
+	err, special := guarded(watchdog, func() error {
 		gen := &fixedIDs{}
 		exp := &capSpans{}
 		opts := []sdktrace.TracerProviderOption{sdktrace.WithSyncer(exp), sdktrace.WithIDGenerator(gen)}
@@ -652,29 +774,7 @@ func runSamplerCase(c Case, conc *Conc) Outcome {
 			out.Opt = "WithSampler(nil)"
 		}
 		tp := sdktrace.NewTracerProvider(opts...)
-		tr := tp.Tracer("c20")
-		var b strings.Builder
-		for _, p := range probeIDs {
-			gen.tid = p.id
-			parent := func(sampled bool) context.Context {
-				fl := trace.TraceFlags(0)
-				if sampled {
-					fl = trace.FlagsSampled
-				}
-				return trace.ContextWithRemoteSpanContext(context.Background(), trace.NewSpanContext(trace.SpanContextConfig{
-					TraceID: p.id, SpanID: trace.SpanID{5}, TraceFlags: fl, Remote: true}))
-			}
-			for _, ctx := range []context.Context{context.Background(), parent(true), parent(false)} {
-				_, sp := tr.Start(ctx, "probe")
-				if sp.SpanContext().IsSampled() {
-					b.WriteByte('1')
-				} else {
-					b.WriteByte('0')
-				}
-				sp.End()
-			}
-		}
-		vec = b.String()
+		vec = probeSampler(tp.Tracer("c20"), gen)
 		return tp.Shutdown(context.Background())
 	})
 	if special != "" {
